@@ -26,8 +26,8 @@ def date_template(rng):
     if k == 1:
         m = rng.choice(["%m", "%m", "%b", "%B", "%_b", "%Om", "%mth", "%0m", "%-m", "%h", "% m"])
         d = rng.choice(["%d", "%d", "%dth", "%Od", "%0d", "%-d", "% d"])
-        y = rng.choice(["%Y", "%Y", "%Y", "% Y", "%-Y", "%0Y"])
-        return [y, m, d], "Ymd" + ("-spacepad" if "% " in y + m + d else ""), None
+        y = rng.choice(["%Y", "%Y", "%Y", "% Y", "%-Y", "%0Y", "%OY"])
+        return [y, m, d], "Ymd" + ("-spacepad" if "% " in y + m + d else "") + ("-romY" if y == "%OY" else ""), None
     if k == 2:
         y = rng.choice(["%Y", "%Y", "% Y", "%-Y"])
         j = rng.choice(["%j", "%D", "%j", "% j", "%-j", "%0j"])
